@@ -521,6 +521,16 @@ func dispatchCtxCarriesOperation(c *Ctx) {
 	}
 }
 
+var ctxWanted = "WithOperationContext"
+
+// ctxFromWith: like ctxFromWithOperationContext for another context constructor of package graphql.
+func ctxFromWith(name string, v ssa.Value, at ssa.Instruction) bool {
+	old := ctxWanted
+	ctxWanted = name
+	defer func() { ctxWanted = old }()
+	return ctxFromWithOperationContext(v, at, 0, map[ssa.Value]bool{})
+}
+
 func ctxFromWithOperationContext(v ssa.Value, at ssa.Instruction, depth int, seen map[ssa.Value]bool) bool {
 	if v == nil || depth > 6 || seen[v] {
 		return false
@@ -530,7 +540,7 @@ func ctxFromWithOperationContext(v ssa.Value, at ssa.Instruction, depth int, see
 	switch x := v.(type) {
 	case *ssa.Call:
 		name := an.CalleeOf(x).FullName()
-		if name == pkgGraphql+".WithOperationContext" {
+		if name == pkgGraphql+"."+ctxWanted {
 			return true
 		}
 		// derived contexts (WithCancel, WithValue, withSubscriptionErrorContext …): look at the parent context argument
